@@ -17,8 +17,9 @@ OUT = BUILD / 'scratch' / 'C07' / 'mut'
 
 # name -> (file, old text, new text, functions to take from the mutated module)
 MUTATIONS = {
-    'decl-first-subs (the proposed fix)': ('expressions.py', "                current[s.symbol] = s.expression\n",
-                                           "                current[s.symbol] = s.expression.subs(current)\n",
+    'decl-first-raw (revert of 0e1c190)': ('expressions.py',
+                                           "            if i not in duplicated_symbols[s.symbol]:\n                current[s.symbol] = s.expression.subs(current)\n",
+                                           "            if i not in duplicated_symbols[s.symbol]:\n                current[s.symbol] = s.expression\n",
                                            ['make_declarative', 'cleanup_model']),
     'decl-middle-no-subs': ('expressions.py', "                    current[s.symbol] = s.expression.subs(current)\n",
                             "                    current[s.symbol] = s.expression\n", ['make_declarative', 'cleanup_model']),
@@ -31,17 +32,18 @@ MUTATIONS = {
     'decl-dup-off-by-one': ('expressions.py', "            duplicated_symbols[symb].append(i)\n",
                             "            duplicated_symbols[symb].append(i + 1)\n", ['make_declarative', 'cleanup_model']),
     'inline-dropped-subs': ('expressions.py', "            n = s.subs(current)\n", "            n = s\n", ['cleanup_model']),
-    'inline-resolve-chain (a fix)': ('expressions.py', "            current[s.symbol] = s.expression\n        else:\n            n = s.subs",
-                                     "            current[s.symbol] = s.expression.subs(current)\n        else:\n            n = s.subs",
-                                     ['cleanup_model']),
+    'inline-raw-alias (revert of 185d1d3)': ('expressions.py',
+                                             "            current[s.symbol] = s.expression.subs(current)\n        else:\n            n = s.subs",
+                                             "            current[s.symbol] = s.expression\n        else:\n            n = s.subs",
+                                             ['cleanup_model']),
     'cleanup-skip-fixed-thetas': ('expressions.py', "    model = replace_fixed_thetas(model)\n    return model\n",
                                   "    return model\n", ['cleanup_model']),
     'cleanup-skip-nonrandom': ('expressions.py', "    model = replace_non_random_rvs(model)\n", "", ['cleanup_model']),
-    'obsexpr-off-by-one': ('expressions.py', "    for j in range(i, -1, -1):\n", "    for j in range(i, 0, -1):\n",
+    'obsexpr-off-by-one': ('expressions.py', "    for j in range(i - 1, -1, -1):\n", "    for j in range(i - 1, 0, -1):\n",
                            ['get_observation_expression', 'get_individual_prediction_expression',
                             'get_population_prediction_expression']),
-    'obsexpr-last-assignment (a fix)': ('expressions.py', "            y = s.expression\n            break\n",
-                                        "            y = s.expression\n",
+    'obsexpr-self-subs (partial revert of df3152c)': ('expressions.py', "    for j in range(i - 1, -1, -1):\n",
+                                        "    for j in range(i, -1, -1):\n",
                                         ['get_observation_expression', 'get_individual_prediction_expression',
                                          'get_population_prediction_expression']),
     'ipred-eps-one': ('expressions.py', "{Expr.symbol(eps): 0 for eps in model.random_variables.epsilons.names}",
@@ -61,6 +63,8 @@ MUTATIONS = {
                                   ['remove_unused_parameters_and_rvs']),
     'unused-normal-always-kept': ('common.py', "            if not symbols.isdisjoint(dist.free_symbols):\n                new_dists.append(dist)\n",
                                   "            new_dists.append(dist)\n", ['remove_unused_parameters_and_rvs']),
+    'fixed-thetas-all-params (revert of 142d5a3)': ('parameters.py', "        if p.fix and p.symbol not in rv_symbols:\n",
+                                                    "        if p.fix:\n", ['replace_fixed_thetas']),
     'fixed-thetas-appended': ('parameters.py', "statements=new_assignments + model.statements", "statements=model.statements + new_assignments",
                               ['replace_fixed_thetas']),
     'fixed-thetas-wrong-value': ('parameters.py', "Assignment(p.symbol, Expr.float(p.init))", "Assignment(p.symbol, Expr.float(p.init + 1))",
@@ -76,11 +80,7 @@ def load_mutated(fname, old, new, tag):
     text = (SRC / fname).read_text()
     assert text.count(old) >= 1, (fname, old)
     # the inline loop and make_declarative share one line: mutate the intended occurrence only
-    if old == "                current[s.symbol] = s.expression\n":
-        idx = text.index(old)
-        text = text[:idx] + new + text[idx + len(old):]
-    else:
-        text = text.replace(old, new)
+    text = text.replace(old, new)
     OUT.mkdir(parents=True, exist_ok=True)
     path = OUT / f'{tag}_{fname}'
     path.write_text(text)
@@ -117,14 +117,17 @@ def main():
     reg = [json.loads(p.read_text()) for p in sorted((VERIF / 'regress' / 'C07').glob('*.json'))]
     specs = reg + [c07.gen_spec(ctx.rng) for _ in range(n)]
     if not only or only == 'patched':
-        # the repaired make_declarative against Model.declarative_patched (Properties.declarative_patched_correct)
-        mods = mods_for('decl-first-subs (the proposed fix)', 'mp')
-        kept, verdicts, infos, _ = c07.run_specs(ctx, specs, 'mutpatched', quiet=True, mods=mods, verdict='verdict_patched')
+        # make_declarative with 0e1c190 reverted against Model.declarative_before_fix (the old model still fits the
+        # old code), and the current code on strictly valid programs (Properties.declarative_preserves: 0 failures)
+        mods = mods_for('decl-first-raw (revert of 0e1c190)', 'mp')
+        kept, verdicts, infos, _ = c07.run_specs(ctx, specs, 'mutbefore', quiet=True, mods=mods, verdict='verdict_before_fix')
         corr = sum(1 for v in verdicts if 1 in v)
+        print(f"REVERTED make_declarative vs Model.declarative_before_fix: {len(kept)} programs, correspondence "
+              f"disagreements {corr}", flush=True)
+        kept, verdicts, infos, _ = c07.run_specs(ctx, specs, 'mutcurrent', quiet=True)
         valid = [v for v in verdicts if 211 not in v]
         bad = sum(1 for v in valid if 11 in v or 14 in v or 201 in v)
-        print(f"PATCHED make_declarative vs Model.declarative_patched: {len(kept)} programs, correspondence "
-              f"disagreements {corr}; strictly valid programs {len(valid)}, of these changed/raised/guard-false "
+        print(f"CURRENT make_declarative: strictly valid programs {len(valid)}, of these changed/raised/guard-false "
               f"{bad} (theorem: 0)", flush=True)
     for tag, k in enumerate(MUTATIONS):
         if only and only not in k:
@@ -138,8 +141,11 @@ def main():
             for t in tags:
                 if t in c07.ORACLE:
                     need_absent, causes = c07.ORACLE[t]
-                    if not (need_absent not in tags and any(g in tags for g, _ in causes)):
-                        unexplained[t] += 1
+                    if need_absent not in tags and any(g in tags for g, _ in causes):
+                        continue
+                    if t in (11, 12, 14, 15) and 208 in tags and ({201, 204} & tags):
+                        continue        # a program that assigns a parameter / column: outside the domain
+                    unexplained[t] += 1
         caught = bool(corr or unexplained)
         print(f"{'CAUGHT' if caught else 'MISSED'} {k}: correspondence tags {dict(corr)} unexplained oracle tags "
               f"{dict(unexplained)} errors {dict(collections.Counter(e for i in infos for e in i['errors']))}",
